@@ -505,6 +505,132 @@ def check_factory_optional_deref(ctx):
                               % (U(ae), c.func.attr, sorted(set(U(x) for x in bad))[:3], cps[i_]))
     ctx.count('optional_structures_handed_to_converters', n_sites, 2)
 
+
+def check_table_lookup_results(ctx):
+    """C13.R12: a value taken out of an engine lookup table with .get() is None for a key the table does not hold."""
+    from ..astutil import instance_table
+    from ..cfg import CFG
+    from ..dataflow import ReachingDefs, node_of_expr
+    from ..guards import dominating_edges, is_none_test, handler_catches, cmp_parts
+    ctx.rule('C13.R12', 'in CryptographyEngine and KmipEngine the result of <table>.get(key) (None when the table does not hold the key; the tables list what is supported) is not called or dereferenced before it was tested - a None / truth test of the result, a membership test of the key, the key compared equal to a key of the table - unless the use sits in a try that turns any exception into a KMIP error: otherwise an unsupported algorithm / mode / padding in a well-formed request ends in None() or None.attr, a TypeError / AttributeError answered with General Failure')
+    n = 0
+    for rel, cn in ((CRYPTO, 'CryptographyEngine'), (ENGINE, 'KmipEngine')):
+        t = ctx.src.tree(rel)
+        c = get_class(t, cn)
+        for name in sorted(methods(c)):
+            fn = get_method(c, name)
+            g = None
+            for a in walk_local(fn):
+                if not (isinstance(a, ast.Assign) and len(a.targets) == 1 and isinstance(a.targets[0], ast.Name)):
+                    continue
+                v = a.value
+                if not (isinstance(v, ast.Call) and isinstance(v.func, ast.Attribute) and v.func.attr == 'get' and is_self_attr(v.func.value) and v.args):
+                    continue
+                lit = instance_table(c, v.func.value.attr)
+                if lit is None:
+                    continue
+                if len(v.args) == 2 and not (isinstance(v.args[1], ast.Constant) and v.args[1].value is None):
+                    continue
+                x = a.targets[0].id
+                keytxt = U(v.args[0])
+                tabkeys = {U(k) for k in lit.keys if k is not None}
+                if g is None:
+                    g = CFG(fn)
+                    rd = ReachingDefs(g)
+                for u in walk_local(fn):
+                    use = None
+                    if isinstance(u, ast.Call) and isinstance(u.func, ast.Name) and u.func.id == x:
+                        use = u
+                    elif isinstance(u, ast.Attribute) and isinstance(u.value, ast.Name) and u.value.id == x and isinstance(u.ctx, ast.Load):
+                        use = u
+                    if use is None:
+                        continue
+                    nd = node_of_expr(g, use)
+                    if nd is None or not any(dn is not None and dn.stmt is a for var, val, dn in rd.reaching(nd, x)):
+                        continue
+                    n += 1
+                    ok = False
+                    for tt, lab in dominating_edges(g, nd):
+                        nt = is_none_test(tt.stmt)
+                        if nt and U(nt[1]) == x and ((nt[0] == 'isnot') == (lab == 'T')):
+                            ok = True
+                        if U(tt.stmt) == x and lab == 'T':
+                            ok = True
+                        p = cmp_parts(tt.stmt)
+                        if p and U(p[0]) == keytxt:
+                            if (p[1] == 'In' and lab == 'T') or (p[1] == 'NotIn' and lab == 'F'):
+                                ok = True
+                            if p[1] == 'Eq' and lab == 'T' and U(p[2]) in tabkeys:
+                                ok = True
+                    if not ok:
+                        ok = any(('*' in handler_catches(h) or 'Exception' in handler_catches(h)) and any(isinstance(r_, ast.Raise) and isinstance(r_.exc, ast.Call) and (call_name(r_.exc) or '').startswith('exceptions.')
+                                                                                                           for s_ in h.body for r_ in ast.walk(s_))
+                                 for tr in nd.tries for h in tr.handlers)
+                    ctx.check(ok, 'C13.R12', '%s.%s|%s from %s' % (cn, name, x, U(v.func.value)), '%s:%s %s.%s' % (rel, use.lineno, cn, name),
+                              '%s is tested (or its key is) before it is used' % x,
+                              '%s = %s can be None (the table does not hold every value of the enumeration), and %s is evaluated without a test: TypeError / AttributeError -> General Failure for an unsupported value' % (x, U(v)[:70], U(use)[:40]))
+    ctx.count('table_lookup_result_uses', n, 8)
+
+
+def check_library_value_errors(ctx):
+    """C13.R13: calls into the cryptography library that validate request-controlled values sit in a try that answers with a KMIP error."""
+    from ..cfg import CFG
+    from ..guards import handler_catches
+    ctx.rule('C13.R13', 'in CryptographyEngine the library calls that reject request-controlled values - ciphers.Cipher(...) (the IV / nonce size is checked there), finalize() / finalize_with_tag() of a decryptor or an unpadder (ciphertext length, authentication tag, padding bytes), and the constructors hkdf.HKDF / pbkdf2.PBKDF2HMAC (requested length, iteration count) - run inside a try whose handler answers with a KMIP error (as mac, wrap_key and verify_signature do), in the method itself or around every call of that method inside the class: otherwise undecryptable ciphertext, a wrong tag, an IV of the wrong size or an excessive derivation length - all well-formed requests - are answered with General Failure.  Encryption-side update/finalize are not demanded: the plaintext is padded to whole blocks first')
+    t = ctx.src.tree(CRYPTO)
+    c = get_class(t, 'CryptographyEngine')
+    ms = {name: get_method(c, name) for name in methods(c)}
+
+    def converting(h):
+        return ('*' in handler_catches(h) or 'Exception' in handler_catches(h)) and any(
+            isinstance(r_, ast.Raise) and isinstance(r_.exc, ast.Call) and (call_name(r_.exc) or '').startswith('exceptions.') for s_ in h.body for r_ in ast.walk(s_))
+    graphs = {}
+
+    def graph(name):
+        if name not in graphs:
+            graphs[name] = CFG(ms[name])
+        return graphs[name]
+
+    def method_protected(name, seen=()):
+        """every call of self.<name> inside the class sits in a converting try, or in a method that is itself protected that way"""
+        sites = []
+        for m2 in ms:
+            g2 = graph(m2)
+            for n2 in g2.nodes:
+                for c2 in calls_at(n2):
+                    if is_self_attr(c2.func, name):
+                        sites.append((m2, n2))
+        if not sites or name in seen:
+            return False
+        return all(any(converting(h) for tr in n2.tries for h in tr.handlers) or method_protected(m2, seen + (name,)) for m2, n2 in sites)
+    n = 0
+    for name in sorted(ms):
+        fn = ms[name]
+        g = graph(name)
+        # locals holding a decryptor / unpadder
+        dec = {}
+        for a in walk_local(fn):
+            if isinstance(a, ast.Assign) and len(a.targets) == 1 and isinstance(a.targets[0], ast.Name) and isinstance(a.value, ast.Call) and isinstance(a.value.func, ast.Attribute) \
+                    and a.value.func.attr in ('decryptor', 'unpadder'):
+                dec[a.targets[0].id] = a.value.func.attr
+        for nd in g.nodes:
+            for call in calls_at(nd):
+                cn_ = call_name(call) or ''
+                kind = None
+                if cn_ in ('ciphers.Cipher', 'Cipher'):
+                    kind = 'ciphers.Cipher'
+                elif cn_ in ('hkdf.HKDF', 'pbkdf2.PBKDF2HMAC'):
+                    kind = cn_
+                elif isinstance(call.func, ast.Attribute) and call.func.attr in ('finalize', 'finalize_with_tag') and isinstance(call.func.value, ast.Name) and call.func.value.id in dec:
+                    kind = '%s.%s' % (dec[call.func.value.id], call.func.attr)
+                if kind is None:
+                    continue
+                n += 1
+                ok = any(converting(h) for tr in nd.tries for h in tr.handlers) or method_protected(name)
+                ctx.check(ok, 'C13.R13', 'CryptographyEngine.%s|%s|%s' % (name, kind, ' '.join(U(call).split())[:50]), '%s:%s CryptographyEngine.%s' % (CRYPTO, call.lineno, name), '%s runs inside a try that answers with a KMIP error' % kind,
+                          '%s can reject the values of a well-formed request (ValueError / InvalidTag) and no try around it turns that into a KMIP error: the item is answered with General Failure' % U(call)[:60])
+    ctx.count('value_checking_library_calls', n, 6)
+
 def run(ctx):
     src = ctx.src
     ai = EngineAI.shared(src)
@@ -739,6 +865,8 @@ def run(ctx):
     from .c15 import check_index_bounds
     check_index_bounds(ctx, m, 'C13.R10', ' (shared with C15.R9)')
     check_factory_optional_deref(ctx)
+    check_table_lookup_results(ctx)
+    check_library_value_errors(ctx)
     ctx.not_decided += ['implicit exceptions of third-party code for particular values (cryptography rejecting a nonce length, unpadding failure with a wrong key)']
     ctx.assumptions += ['requests reach the engine only through the decoders (wire-decoded provenance): field types are those the decoders construct',
                         'TypeError raises in pie validate() are infeasible for decoder-typed values; ValueError raises depend on values and are feasible']
